@@ -250,6 +250,20 @@ def oracle(ck, inp, probe, outputs, ob, profile_files):
                 ck.oracle_fail('session_block_first', inp, {'file': fname, 'first': first}, sig)
             if sum(1 for l in new.split('\n') if l.startswith('#!')) != 1:
                 ck.oracle_fail('session_block_once', inp, {'file': fname}, sig)
+        # a benchmark / run is described once per file: no metadata record repeats an earlier one
+        seen_b, seen_r = {}, {}
+        for line in after.split('\n'):
+            for prefix, seen in (('# benchmark: ', seen_b), ('# run_id: ', seen_r)):
+                if line.startswith(prefix):
+                    i, js = line[len(prefix):].split('=', 1)
+                    d = json.loads(js)
+                    d.pop('benchmark_id', None)
+                    key = json.dumps(d, sort_keys=True)
+                    if key in seen:
+                        ck.oracle_fail('metadata_not_repeated', inp,
+                                       {'file': fname, 'record': prefix.strip('# :'), 'ids': [seen[key], int(i)],
+                                        'content': key[:200]}, dict(sig, record=prefix.strip('# :')))
+                    seen.setdefault(key, int(i))
         # a measurement line is preceded by its run's and benchmark's metadata record, which
         # describe command line, variables and effective settings
         runs_seen, bench_seen = {}, {}
@@ -279,14 +293,20 @@ def oracle(ck, inp, probe, outputs, ob, profile_files):
                     elif bd is None:
                         problem = 'no-benchmark-record-before'
                     else:
-                        suite = bd['suite']['name']
-                        want_inv = effective(cfg, suite, bd['name'], 'invocations', 1)
-                        want_wu = effective(cfg, suite, bd['name'], 'warmup', None)
+                        # effective settings as the configuration compiler resolved them (priorities and '!' are C02)
+                        want_inv, want_wu = run['rd_invocations'], run['rd_warmup']
                         if bd['name'] != run['bench_name'] or bd['runDetails'].get('invocations') != want_inv \
                                 or bd['runDetails'].get('warmup') != want_wu:
                             problem = 'effective-settings'
                         elif bd['variables'] != run['variables']:
                             problem = 'variables'
+                        else:
+                            # the run record describes the run of the line: its variables are the line's columns
+                            for key, ci in (('cores', 4), ('inputSize', 5), ('varValue', 6), ('tag', 7),
+                                            ('machine', 8)):
+                                col = '' if rd.get(key) is None else str(rd[key])
+                                if col != runcols[ci]:
+                                    problem = 'run-variables:%s' % key
                 if problem:
                     ck.oracle_fail('metadata_precedes', inp, {'file': fname, 'line': line[:120], 'problem': problem},
                                    dict(sig, problem=problem))
